@@ -12,7 +12,18 @@
 //!   D. expiry: an expired shard is not loaded and is deleted only after the grace period.
 //!   E. (opt-in, C10_ONLY=E, not part of the default run) a probe outside the generated input space: a file segment with
 //!      non-zero cas_flags makes export_as_keyed_shard(include_file_info=false) fail; the code base only ever writes 0 there.
-//! Deterministic; seed from VERIF_SEED (default 0); C10_ONLY=A|B|C|D selects sections, C10_SKIP=Ca|Cb skips scenario (a)/(b) of C.
+//!   F. entry points and input classes not reached by A-D: (1) set operations on shards with zero-chunk xorbs (in the first, the
+//!      second, both) and on LOOKUP-LESS operands - the re-serialisation by `MDBMinimalShard::serialize` and the zero-key
+//!      `export_as_keyed_shard` with no tables - in every operand position, union and difference; the truthfulness and completeness
+//!      of `MDBInMemoryShard::chunk_hash_dedup_query` on in-memory unions / differences; (2) `export_as_keyed_shard_streaming` ==
+//!      `export_as_keyed_shard` (all 8 flag combinations x zero key / real key; identical bytes up to the two footer timestamps),
+//!      the creation / expiry footer fields for validity 0 s, 1 s, 1 h, 10 years, `MDBShardFile::export_with_expiration` (content
+//!      identical, only the expiry changes, name == content hash); (3) the manager entry points `new_in_cache_directory`,
+//!      `registered_shard_list`, `shard_is_registered`, `all_file_info`, `refresh_shard_dir`, `register_shards_by_path` (directory
+//!      and single file), `clean_expired_shards_if_needed` with the DEFAULT grace period on a directory holding a valid shard, one
+//!      expired a day ago and one expired eight days ago: expired shards are never loaded, the valid one and the one inside the
+//!      grace period are never deleted, a shard appearing later is found after refresh.
+//! Deterministic; seed from VERIF_SEED (default 0); C10_ONLY=A|B|C|D|F selects sections, C10_SKIP=Ca|Cb skips scenario (a)/(b) of C.
 //! Prints `WITNESS ...` and exits 1 on the first violation, `no violation found` and exits 0 otherwise.
 use std::collections::{BTreeMap, BTreeSet};
 use std::io::Cursor;
@@ -1356,6 +1367,244 @@ fn section_e(seed: u64) {
     }
 }
 
+// ---------------------------------------------------------------------------------------------------------------------
+// F. entry points and input classes not reached by A-D
+// ---------------------------------------------------------------------------------------------------------------------
+fn bare_copy(bytes: &[u8], how: usize) -> Vec<u8> {
+    let mut out = Vec::new();
+    if how == 0 {
+        let min = must("[F] MDBMinimalShard::from_reader", || mdb_shard::streaming_shard::MDBMinimalShard::from_reader(&mut &bytes[..], true, true));
+        must("[F] MDBMinimalShard::serialize", || min.serialize(&mut out));
+    } else {
+        let info = must("[F] load_from_reader", || MDBShardInfo::load_from_reader(&mut Cursor::new(bytes)));
+        must("[F] export_as_keyed_shard(zero key, file info only)", || info.export_as_keyed_shard(&mut Cursor::new(bytes), &mut out, mh(&ZERO), Duration::from_secs(3600), true, false, false));
+    }
+    out
+}
+fn section_f(seed: u64) {
+    let mut rng = Rng(seed.wrapping_mul(0x0BAD_5EED_1234_5677) ^ 0xF);
+    let load = |b: &Vec<u8>| must("[F] MDBShardInfo::load_from_reader", || MDBShardInfo::load_from_reader(&mut Cursor::new(b)));
+    // ---- (1) zero-chunk xorbs, lookup-less operands, in-memory dedup answers
+    let pool = gen_pool(&mut rng, 12, 10, true);
+    let neg = negatives_for(&pool);
+    for round in 0..4 {
+        let mut a = gen_shard(&mut rng, &pool, 4, 4);
+        let mut b = gen_shard(&mut rng, &pool, 4, 4);
+        let (z1, z2, z3) = (rng.hash(), rng.hash(), rng.hash_with_prefix(pool.xorbs[0].0[0]));
+        let empty_xorb = XorbRec { chunks: vec![], on_disk: 0 };
+        a.xorbs.insert(z1, empty_xorb.clone());
+        b.xorbs.insert(z2, empty_xorb.clone());
+        a.xorbs.insert(z3, empty_xorb.clone());
+        b.xorbs.insert(z3, empty_xorb.clone());
+        check_set_ops(&format!("F zero-chunk xorbs in the first, the second and both (#{round})"), &a, &b, &neg, round == 0);
+        check_set_ops(&format!("F zero-chunk xorbs, operands swapped (#{round})"), &b, &a, &neg, false);
+        // lookup-less operands
+        *DETAILS.lock().unwrap() = format!(" | inputs: first = {} ; second = {}", a.describe(), b.describe());
+        let (ba, bb) = (to_bytes(&a), to_bytes(&b));
+        for how in 0..2 {
+            let what = if how == 0 { "re-serialised by MDBMinimalShard::serialize (no lookup tables)" } else { "re-exported with the zero key, file info but no lookup tables" };
+            let (la, lb) = (bare_copy(&ba, how), bare_copy(&bb, how));
+            for (name, x, y) in [("first operand", &la, &bb), ("second operand", &ba, &lb), ("both operands", &la, &lb)] {
+                let (ix, iy) = (load(x), load(y));
+                let mut out = Vec::new();
+                must(&format!("[F] shard_set_union, {name} {what}"), || shard_set_union(&ix, &mut Cursor::new(x), &iy, &mut Cursor::new(y), &mut out));
+                if let Err(e) = check_shard_bytes(&out, &m_union(&a, &b), PLAIN, &neg) {
+                    witness(format!("[F] shard_set_union(first, second) with the {name} {what}: {e}"));
+                }
+                let mut out = Vec::new();
+                must(&format!("[F] shard_set_difference, {name} {what}"), || shard_set_difference(&ix, &mut Cursor::new(x), &iy, &mut Cursor::new(y), &mut out));
+                if let Err(e) = check_shard_bytes(&out, &m_diff(&a, &b), PLAIN, &neg) {
+                    witness(format!("[F] shard_set_difference(first, second) (expected: records of the second not in the first) with the {name} {what}: {e}"));
+                }
+            }
+        }
+        // in-memory dedup answers on the results of the in-memory operations
+        let (ma, mb) = (to_mem(&a), to_mem(&b));
+        let junk = [0x3333_3333_3333_3333u64, 4, 4, 4];
+        for (op, mem, want) in [
+            ("MDBInMemoryShard::union", must("[F] union", || ma.union(&mb)), m_union(&a, &b)),
+            ("MDBInMemoryShard::difference", must("[F] difference", || ma.difference(&mb)), m_diff(&a, &b)),
+        ] {
+            let mut qs = queries_for(&want, &junk);
+            for h in &neg {
+                qs.push(vec![*h]);
+            }
+            for q in qs {
+                let qm: Vec<MerkleHash> = q.iter().map(mh).collect();
+                let ans = match catch_unwind(AssertUnwindSafe(|| mem.chunk_hash_dedup_query(&qm))) {
+                    Ok(a) => a,
+                    Err(_) => witness(format!("[F] {op}(first, second).chunk_hash_dedup_query panicked")),
+                };
+                if let Err(e) = validate_answer(&want, &q, &ans) {
+                    witness(format!("[F] {op}(first, second), then chunk_hash_dedup_query on the in-memory result ({} hashes starting {}): {e}", q.len(), hx(&q[0])));
+                }
+            }
+        }
+    }
+    DETAILS.lock().unwrap().clear();
+
+    // ---- (2) streaming export, timestamps, export_with_expiration
+    let model = gen_shard(&mut rng, &pool, 6, 6);
+    *DETAILS.lock().unwrap() = format!(" | S = {}", model.describe());
+    let bytes = to_bytes(&model);
+    let info = load(&bytes);
+    let now = || SystemTime::now().duration_since(SystemTime::UNIX_EPOCH).unwrap().as_secs();
+    let key = rng.hash();
+    for k in [ZERO, key] {
+        for fl in 0..8 {
+            let (f, c, kk) = flags_of(fl);
+            let what = format!("[F] key {}, {}", hx(&k), flag_str(fl));
+            let (mut o1, mut o2) = (Vec::new(), Vec::new());
+            let t0 = now();
+            let n1 = must(&format!("{what}: export_as_keyed_shard"), || info.export_as_keyed_shard(&mut Cursor::new(&bytes), &mut o1, mh(&k), Duration::from_secs(3600), f, c, kk));
+            let n2 = must(&format!("{what}: export_as_keyed_shard_streaming"), || MDBShardInfo::export_as_keyed_shard_streaming(&mut Cursor::new(&bytes), &mut o2, mh(&k), Duration::from_secs(3600), f, c, kk));
+            let t1 = now();
+            if n1 != o1.len() || n2 != o2.len() {
+                witness(format!("{what}: the exports report {n1} / {n2} bytes written but wrote {} / {}", o1.len(), o2.len()));
+            }
+            if let Err(e) = check_shard_bytes(&o2, &model, Expect { key: k, files: f, cas_lookup: c, chunk_lookup: kk }, &neg) {
+                witness(format!("{what}: export_as_keyed_shard_streaming: {e}"));
+            }
+            let (i1, i2) = (load(&o1), load(&o2));
+            let fo = i1.metadata.footer_offset as usize;
+            if o1.len() != o2.len() || o1[..fo] != o2[..fo] {
+                witness(format!("{what}: export_as_keyed_shard and export_as_keyed_shard_streaming of the same shard differ before the footer"));
+            }
+            let (mut m1, mut m2) = (i1.metadata.clone(), i2.metadata.clone());
+            for m in [&m1, &m2] {
+                if m.shard_creation_timestamp < t0 || m.shard_creation_timestamp > t1 || m.shard_key_expiry < t0 + 3600 || m.shard_key_expiry > t1 + 3600 {
+                    witness(format!("{what}: exported between {t0} and {t1} for 3600 s, the footer says created {} / expires {}", m.shard_creation_timestamp, m.shard_key_expiry));
+                }
+            }
+            m1.shard_creation_timestamp = 0;
+            m2.shard_creation_timestamp = 0;
+            m1.shard_key_expiry = 0;
+            m2.shard_key_expiry = 0;
+            if m1 != m2 {
+                witness(format!("{what}: the footers written by export_as_keyed_shard and export_as_keyed_shard_streaming differ in more than the timestamps"));
+            }
+        }
+    }
+    for valid in [0u64, 1, 3600, 315_360_000] {
+        let mut o = Vec::new();
+        let t0 = now();
+        must("[F] export_as_keyed_shard", || info.export_as_keyed_shard(&mut Cursor::new(&bytes), &mut o, mh(&key), Duration::from_secs(valid), true, true, true));
+        let t1 = now();
+        let m = load(&o).metadata;
+        if m.shard_key_expiry < t0 + valid || m.shard_key_expiry > t1 + valid || m.shard_creation_timestamp < t0 || m.shard_creation_timestamp > t1 {
+            witness(format!("[F] export_as_keyed_shard with validity {valid} s between {t0} and {t1}: the footer says created {} / expires {}", m.shard_creation_timestamp, m.shard_key_expiry));
+        }
+    }
+    {
+        let src = infra("tempdir", tempfile::tempdir());
+        let dst = infra("tempdir", tempfile::tempdir());
+        let st = stage(src.path(), &model);
+        let sf = must("[F] load_from_file", || MDBShardFile::load_from_file(&st.path));
+        let t0 = now();
+        let out = must("[F] MDBShardFile::export_with_expiration(1 h)", || sf.export_with_expiration(dst.path(), Duration::from_secs(3600)));
+        let t1 = now();
+        let ob = infra("read", std::fs::read(&out.path));
+        let sb = infra("read", std::fs::read(&st.path));
+        let (oi, si) = (load(&ob), load(&sb));
+        let fo = si.metadata.footer_offset as usize;
+        let mut om = oi.metadata.clone();
+        let exp = om.shard_key_expiry;
+        om.shard_key_expiry = si.metadata.shard_key_expiry;
+        if ob.len() != sb.len() || ob[..fo] != sb[..fo] || om != si.metadata || exp < t0 + 3600 || exp > t1 + 3600 {
+            witness(format!("[F] MDBShardFile::export_with_expiration(1 h): the output must equal the source except for the expiry in [{}, {}]; expiry written {exp}, same length {}, same content before the footer {}", t0 + 3600, t1 + 3600, ob.len() == sb.len(), ob.len() == sb.len() && ob[..fo] == sb[..fo]));
+        }
+        if parse_shard_filename(&out.path) != Some(compute_data_hash(&ob)) || out.shard_hash != compute_data_hash(&ob) || !st.path.exists() {
+            witness("[F] MDBShardFile::export_with_expiration: the output is not named by its content hash, or the source is gone".into());
+        }
+        if let Err(e) = check_shard_bytes(&ob, &model, PLAIN, &neg) {
+            witness(format!("[F] MDBShardFile::export_with_expiration: {e}"));
+        }
+    }
+    DETAILS.lock().unwrap().clear();
+
+    // ---- (3) manager entry points, default grace period
+    let mg = Mgr { rt: infra("tokio runtime", tokio::runtime::Builder::new_current_thread().build()) };
+    let upool = gen_pool(&mut rng, 12, 12, true);
+    let uneg = negatives_for(&upool);
+    let part = |lo: usize, hi: usize| Model {
+        files: upool.files.iter().skip(lo).take(hi - lo).map(|(h, f)| (*h, f.clone())).collect(),
+        xorbs: upool.xorbs.iter().skip(lo).take(hi - lo).cloned().collect(),
+    };
+    let (m_valid, m_day, m_week, m_later, m_single) = (part(0, 3), part(3, 5), part(5, 7), part(7, 9), part(9, 12));
+    let dir = infra("tempdir", tempfile::tempdir());
+    let t = now();
+    let write_with_expiry = |m: &Model, expiry: u64| -> PathBuf {
+        let b = to_bytes(m);
+        let mut info = load(&b);
+        info.metadata.shard_key_expiry = expiry;
+        let mut out = b[..info.metadata.footer_offset as usize].to_vec();
+        must("[F] MDBShardFileFooter::serialize", || info.metadata.serialize(&mut out));
+        let p = dir.path().join(shard_file_name(&compute_data_hash(&out)));
+        infra("write", std::fs::write(&p, &out));
+        p
+    };
+    let p_valid = write_with_expiry(&m_valid, t + 3600);
+    let p_day = write_with_expiry(&m_day, t - 86_400);
+    let p_week = write_with_expiry(&m_week, t - 8 * 86_400);
+    let what = "[F] cache directory holding a shard valid for another hour, one expired a day ago and one expired eight days ago";
+    let mgr = must(&format!("{what}: ShardFileManager::new_in_cache_directory"), || mg.rt.block_on(ShardFileManager::new_in_cache_directory(dir.path())));
+    let registered: BTreeSet<String> = must(&format!("{what}: registered_shard_list"), || mg.rt.block_on(mgr.registered_shard_list())).iter().map(|s| s.shard_hash.hex()).collect();
+    let name_of = |p: &PathBuf| p.file_stem().unwrap().to_string_lossy().to_string();
+    if registered != BTreeSet::from([name_of(&p_valid)]) {
+        witness(format!("{what}: new_in_cache_directory registered {registered:?}, expected exactly the valid shard {}", name_of(&p_valid)));
+    }
+    for (p, want) in [(&p_valid, true), (&p_day, false), (&p_week, false)] {
+        let h = parse_shard_filename(p).unwrap();
+        if mg.rt.block_on(mgr.shard_is_registered(&h)) != want {
+            witness(format!("{what}: shard_is_registered({}) is {}", name_of(p), !want));
+        }
+    }
+    let expired_files: Vec<H> = m_day.files.keys().chain(m_week.files.keys()).cloned().collect();
+    check_manager(&mg, what, &mgr, &m_valid, &m_valid.files, &expired_files, None, &uneg);
+    for m in [&m_day, &m_week] {
+        for x in m.xorbs.values() {
+            if let Some(a) = mg.query(what, &mgr, &[x.chunks[0].0]) {
+                witness(format!("{what}: a chunk recorded only in an expired shard is answered from xorb {}", hx(&hh(&a.1.cas_hash))));
+            }
+        }
+    }
+    let all = must(&format!("{what}: all_file_info"), || mg.rt.block_on(mgr.all_file_info()));
+    let got: BTreeSet<H> = all.iter().map(|f| hh(&f.metadata.file_hash)).collect();
+    if got != m_valid.files.keys().cloned().collect() {
+        witness(format!("{what}: all_file_info lists {} file records, the valid shard holds {}", got.len(), m_valid.files.len()));
+    }
+    for call in 1..=3 {
+        must(&format!("{what}: clean_expired_shards_if_needed (call {call})"), || mgr.clean_expired_shards_if_needed());
+        if !p_valid.exists() || !p_day.exists() {
+            witness(format!("{what}: after call {call} of clean_expired_shards_if_needed (default grace period of 7 days) the {} was deleted", if !p_valid.exists() { "valid shard" } else { "shard that expired only a day ago" }));
+        }
+    }
+    eprintln!("[F] after three clean_expired_shards_if_needed calls the shard expired 8 days ago {}", if p_week.exists() { "still exists" } else { "is deleted" });
+    must("[F] MDBShardFile::clean_expired_shards(grace 0)", || MDBShardFile::clean_expired_shards(dir.path(), 0));
+    if !p_valid.exists() || p_day.exists() || p_week.exists() {
+        witness(format!("{what}: after clean_expired_shards(grace 0): valid shard exists = {}, expired shards exist = {} / {}", p_valid.exists(), p_day.exists(), p_week.exists()));
+    }
+    // a shard appearing later: refresh_shard_dir, register_shards_by_path (directory and single file), a later manager
+    let p_later = write_with_expiry(&m_later, t + 3600);
+    must("[F] refresh_shard_dir", || mg.rt.block_on(mgr.refresh_shard_dir()));
+    let both = m_union(&m_valid, &m_later);
+    check_manager(&mg, "[F] a second valid shard appears in the cache directory; refresh_shard_dir", &mgr, &both, &both.files, &expired_files, None, &uneg);
+    let p_single = write_with_expiry(&m_single, u64::MAX);
+    must("[F] register_shards_by_path(single file)", || mg.rt.block_on(mgr.register_shards_by_path(&[std::path::absolute(&p_single).unwrap()])));
+    must("[F] register_shards_by_path(directory, again)", || mg.rt.block_on(mgr.register_shards_by_path(&[dir.path()])));
+    let three = m_union(&both, &m_single);
+    check_manager(&mg, "[F] a third shard registered with register_shards_by_path(file), then the whole directory registered again", &mgr, &three, &three.files, &expired_files, None, &uneg);
+    let n = mg.rt.block_on(mgr.registered_shard_list()).map(|l| l.len()).unwrap_or(0);
+    if n != 3 {
+        witness(format!("[F] after registering the same three shards through refresh_shard_dir / register_shards_by_path (file) / register_shards_by_path (directory) the manager lists {n} registered shards"));
+    }
+    let again = must("[F] ShardFileManager::new_in_cache_directory (second call)", || mg.rt.block_on(ShardFileManager::new_in_cache_directory(dir.path())));
+    check_manager(&mg, "[F] new_in_cache_directory called a second time for the directory", &again, &three, &three.files, &expired_files, None, &uneg);
+    let fresh = mg.open("[F] new_in_session_directory over the same directory", dir.path());
+    check_manager(&mg, "[F] new_in_session_directory over the same directory", &fresh, &three, &three.files, &expired_files, None, &uneg);
+    let _ = &p_later;
+}
+
 fn main() {
     let seed: u64 = std::env::var("VERIF_SEED").ok().and_then(|s| s.parse().ok()).unwrap_or(0);
     let only = std::env::var("C10_ONLY").unwrap_or_default().to_uppercase();
@@ -1372,6 +1621,9 @@ fn main() {
     }
     if sel("D") {
         section_d(seed);
+    }
+    if sel("F") {
+        section_f(seed);
     }
     if only.contains('E') {
         section_e(seed);
